@@ -20,6 +20,9 @@ type TSIG struct {
 	OrigID     uint16
 	Error      uint16
 	Other      []byte
+	// OtherLenWire is the OTHER LEN as found on the wire when it differs from len(Other)
+	// (a record whose other data is cut short); 0 means len(Other).
+	OtherLenWire int
 }
 
 // HMACFor returns the hash constructor for an algorithm name (lower-case, fully qualified text).
@@ -67,7 +70,11 @@ func (t *TSIG) Digest(msgNoTSIG []byte, secret, requestMAC []byte, timersOnly bo
 		buf = append(buf, tm...)
 		buf = binary.BigEndian.AppendUint16(buf, t.Fudge)
 		buf = binary.BigEndian.AppendUint16(buf, t.Error)
-		buf = binary.BigEndian.AppendUint16(buf, uint16(len(t.Other)))
+		ol := len(t.Other)
+		if t.OtherLenWire != 0 {
+			ol = t.OtherLenWire
+		}
+		buf = binary.BigEndian.AppendUint16(buf, uint16(ol))
 		buf = append(buf, t.Other...)
 	}
 	mac := hmac.New(h, secret)
@@ -149,9 +156,7 @@ func SplitTSIG(msg []byte) (noTSIG []byte, t *TSIG, classTTLOK bool, ok bool) {
 			return nil, nil, false, false
 		}
 	}
-	if off != len(msg) {
-		return nil, nil, false, false
-	}
+	// octets after the last record are ignored: they are covered by no digest and by no count
 	// decode the last record
 	kn, p, _, err := DecodeName(msg, last)
 	if err != nil || binary.BigEndian.Uint16(msg[p:]) != 250 {
@@ -172,19 +177,28 @@ func SplitTSIG(msg []byte) (noTSIG []byte, t *TSIG, classTTLOK bool, ok bool) {
 	t.Fudge = binary.BigEndian.Uint16(msg[q+6:])
 	ml := int(binary.BigEndian.Uint16(msg[q+8:]))
 	q += 10
-	if q+ml+6 > rdEnd {
+	if q+ml > rdEnd {
 		return nil, nil, false, false
 	}
 	t.MAC = append([]byte(nil), msg[q:q+ml]...)
 	q += ml
-	t.OrigID = binary.BigEndian.Uint16(msg[q:])
-	t.Error = binary.BigEndian.Uint16(msg[q+2:])
-	ol := int(binary.BigEndian.Uint16(msg[q+4:]))
-	q += 6
-	if q+ol != rdEnd {
-		return nil, nil, false, false
+	// The fields after the MAC are read as far as RDLENGTH provides them; what is cut off
+	// counts as zero / empty (the statement is about the MAC, not about TSIG RR syntax).
+	if q+2 <= rdEnd {
+		t.OrigID = binary.BigEndian.Uint16(msg[q:])
 	}
-	t.Other = append([]byte(nil), msg[q:q+ol]...)
+	if q+4 <= rdEnd {
+		t.Error = binary.BigEndian.Uint16(msg[q+2:])
+	}
+	if q+6 <= rdEnd {
+		ol := int(binary.BigEndian.Uint16(msg[q+4:]))
+		q += 6
+		if q+ol > rdEnd {
+			ol = rdEnd - q
+		}
+		t.Other = append([]byte(nil), msg[q:q+ol]...)
+		t.OtherLenWire = int(binary.BigEndian.Uint16(msg[q-2:]))
+	}
 	noTSIG = append([]byte(nil), msg[:last]...)
 	binary.BigEndian.PutUint16(noTSIG[10:], uint16(ar-1))
 	return noTSIG, t, classTTLOK, true
